@@ -71,6 +71,9 @@ class Unit:
     replace_calls: list = field(default_factory=list)  # [(callee, stub)] mechanical call substitution (goto-instrument --replace-calls): contract stubs in mode H
     fallback_defines: list = field(default_factory=lambda: ["VERIF_NO_TABLE"])  # retried when the harness no longer compiles (e.g. a static the contracts mention was removed)
     minisat_cross: bool = False       # thorough tier: repeat with the default MiniSat back end
+    noweave_fallback: bool = False    # exit-weave-only units: when the woven text no longer fits (weave or compile break after a
+                                      # refactoring) re-run without it (-DVERIF_NOWEAVE): a failure there is a violation, a pass leaves
+                                      # the unit undecided (the exit assertions could not be checked)
 
 
 @dataclass
@@ -159,10 +162,26 @@ def parse_cbmc_json(path):
     return results, msgs, solver, verdict
 
 
+def _flatten(lhs, v, out):
+    """flatten a CBMC json value (struct members / array elements) into name -> scalar text"""
+    if not isinstance(v, dict):
+        return
+    if "members" in v:
+        out[lhs] = "struct"
+        for m in v["members"]:
+            _flatten("%s.%s" % (lhs, m.get("name")), m.get("value"), out)
+    elif "elements" in v:
+        out[lhs] = "array"
+        for e in v["elements"]:
+            _flatten("%s[%sl]" % (lhs, e.get("index")), e.get("value"), out)
+    else:
+        out[lhs] = v.get("data", v.get("name"))
+
+
 def trace_inputs(trace):
     """collect values of assignments in a CBMC json trace: {"last": name -> final value,
     "first": name -> first value (initial contents of objects the function later overwrites)};
-    dfcc bookkeeping variables are dropped"""
+    struct and array values are flattened to their scalar leaves; dfcc bookkeeping variables are dropped"""
     last, first = {}, {}
     for st in trace or []:
         if st.get("stepType") == "assignment":
@@ -170,11 +189,14 @@ def trace_inputs(trace):
             v = st.get("value", {})
             if lhs is None or lhs.startswith("__") or "dfcc" in lhs or "write_set" in lhs or lhs.startswith("tmp_"):
                 continue
-            if st.get("hidden", False) and not lhs.startswith(("dynamic_object", "reserved_features", "polyseed_mul2_table", "polyseed_deps")):
+            if st.get("hidden", False) and not lhs.startswith(("dynamic_object", "reserved_features", "polyseed_mul2_table", "polyseed_deps")) \
+                    and not (isinstance(v, dict) and ("members" in v or "elements" in v)):
                 continue
-            val = v.get("data", v.get("name"))
-            last[lhs] = val
-            first.setdefault(lhs, val)
+            flat = {}
+            _flatten(lhs, v, flat)
+            for k, val in flat.items():
+                last[k] = val
+                first.setdefault(k, val)
     return {"last": last, "first": first}
 
 
@@ -182,6 +204,23 @@ def run_unit(u: Unit, char: str, workroot: str, canary=False, keep=False, repo=N
     """run a unit; if only unwinding assertions fail (a loop the recorded bound does not cover, e.g. after a
     source change that introduces a longer library loop) retry once with a generous bound"""
     r = _run_unit(u, char, workroot, canary, keep, repo)
+    if (r.status == "undecided" and u.noweave_fallback and u.profiles
+            and r.reason.startswith(("weave:", "goto-cc failed"))):
+        import copy
+        u2 = copy.copy(u)
+        u2.profiles = []
+        u2.defines = list(u.defines) + ["VERIF_NOWEAVE"]
+        u2.noweave_fallback = False
+        r2 = run_unit(u2, char, workroot + ".noweave", canary, keep, repo)
+        r2.wall_s += r.wall_s
+        if r2.status == "fail":
+            for f in r2.failed:
+                f["description"] = f["description"] + " [checked without the woven exit recording, which no longer fits the source]"
+            return r2
+        r.reason = ("woven exit recording no longer fits the source (%s); the rest of the contract re-checked without it: %s"
+                    % (r.reason[:160], "holds" if r2.status == "pass" else "undecided (" + r2.reason[:120] + ")"))
+        r.wall_s = r2.wall_s
+        return r
     if r.status == "undecided" and r.reason.startswith("unwinding assertion failed") and u.unwind < 640:
         import copy
         u2 = copy.copy(u)
